@@ -101,6 +101,21 @@ INST_QN = {"__cls__": "Q", "fields": {"v": {"__p__": "QName", "v": "local"},
                                       "t": {"__cls__": "T", "fields": {"value": {"__p__": "QName", "v": "{urn:x}c"},
                                                                        "a": {"__p__": "QName", "v": "{urn:b}d"}}},
                                       "at": {"__p__": "QName", "v": "{urn:y}e"}}}
+WITNESS_TREE = G.HEADER + '''
+@dataclass
+class Node:
+    label: Optional[str] = field(default=None, metadata={"type": "Attribute"})
+    kids: list["Node"] = field(default_factory=list, metadata={"type": "Element", "name": "node"})
+    next: Optional["Node"] = field(default=None, metadata={"type": "Element"})
+'''
+
+
+def _node(label, kids=(), nxt=None):
+    return {"__cls__": "Node", "fields": {"label": {"__p__": "str", "v": label} if label is not None else None,
+                                          "kids": list(kids), "next": nxt}}
+
+
+INST_TREE = _node("root", [_node("a", [_node("a1"), _node(None)]), _node("b", [], _node("b-next", [_node("deep")]))], _node("tail"))
 WITNESS_JOBS = [
     {"src": WITNESS_RICH, "name": "w_rich", "root": "Root", "instances": [INST_RICH], "cases": [
         {"i": 0, "writer": "native", "handler": "native", "config": {"indent": "  "}, "ns_map": {"p": "urn:a"}, "strict": True},
@@ -112,12 +127,14 @@ WITNESS_JOBS = [
     {"src": WITNESS_QN, "name": "w_qn", "root": "Q", "instances": [INST_QN], "cases": [
         {"i": 0, "writer": "lxml", "handler": "lxml", "config": {"indent": "  "}, "ns_map": None, "strict": True},
         {"i": 0, "writer": "native", "handler": "native", "config": {}, "ns_map": {"": "urn:a"}, "strict": True}]},
+    {"src": WITNESS_TREE, "name": "w_tree", "root": "Node", "instances": [INST_TREE], "cases": [
+        {"i": 0, "writer": "native", "handler": "lxml", "config": {"indent": "  "}, "ns_map": None, "strict": True}]},
 ]
 WITNESS_PATH = os.path.join(COQ, "Proofs", "RoundtripWitness.v")
 
 
 def witness_text(out):
-    rich, nil, seqtok, qn = out["jobs"]
+    rich, nil, seqtok, qn, tree = out["jobs"]
 
     def D(name, ty, term):
         return f"Definition {name} : {ty} :=\n  {term}.\n"
@@ -169,6 +186,15 @@ Import ListNotations.
     txt += D("pevs_qn", "list pevent", qn["cases"][0]["pevents"])
     txt += "(* XmlEventWriter with the user prefix map {None: urn:a}  ->  XmlEventHandler (known finding C01-F3) *)\n"
     txt += D("pevs_qn_default", "list pevent", qn["cases"][1]["pevents"])
+    txt += '''
+(* model `tree`: a recursive class, Node.label attribute, Node.kids : list[Node] (element `node`),
+   Node.next : Optional[Node]; an instance of depth 4 *)
+'''
+    txt += D("u_tree", "universe", tree["universe"])
+    txt += D("root_tree", "cls", tree["root"])
+    txt += D("o_tree", "value", tree["cases"][0]["value"])
+    txt += "(* XmlEventWriter, indent  ->  LxmlEventHandler *)\n"
+    txt += D("pevs_tree", "list pevent", tree["cases"][0]["pevents"])
     return txt
 
 
@@ -199,6 +225,9 @@ def check_witness(ck):
                    {"cases": out["jobs"][0]["cases"]})
     if out["jobs"][1]["cases"][0].get("equal"):
         ck.notes.append("witness of finding C01-F1 (nil conflation) round-trips now: the nillable guard clause can go")
+    if not out["jobs"][4]["cases"][0].get("equal"):
+        ck.failure("guard-oracle", "the witness instance of the recursive model `tree` (inside the guards) does not round-trip on the real code",
+                   {"cases": out["jobs"][4]["cases"]})
     if not out["jobs"][3]["cases"][0].get("equal"):
         ck.failure("guard-oracle", "the witness instance of model `qn` (QName element values, inside the guards) does not round-trip on the real code",
                    {"cases": out["jobs"][3]["cases"]})
@@ -225,6 +254,7 @@ GUARD_PREDS = {
     "in_guard_sequence": "fun k => negb (in_guard_w k && uses_sequence (rc_universe k))",
     "uses_sequence": "fun k => negb (uses_sequence (rc_universe k))",
     "in_guard_qname": "fun k => negb (in_guard_w k && uses_qname k)",
+    "in_guard_recursive": "fun k => negb (in_guard_w k && uses_recursion (rc_universe k))",
     "guard-oracle": "oracle_in_guard",
     "corr-generate-in-guard": "fun k => negb (in_guard_w k) || gen_agree k",
     "corr-parse-in-guard": "fun k => negb (in_guard_w k) || parse_agree k",
@@ -271,6 +301,7 @@ def guard_layer(ck, jobs, stats):
     stats["guard_cases_with_sequence_group"] = len(bad["uses_sequence"])
     stats["guard_inside_with_sequence_group"] = len(bad["in_guard_sequence"])
     stats["guard_inside_with_qname_values"] = len(bad["in_guard_qname"])
+    stats["guard_inside_with_recursive_class"] = len(bad["in_guard_recursive"])
     stats["guard_inside_share"] = round(len(inside) / max(1, len(terms)), 3)
     stats["guard_skipped"] = skipped
     for cls in ("guard-oracle", "corr-generate-in-guard", "corr-parse-in-guard", "guard-theorem-instance",
@@ -329,6 +360,48 @@ def widen_sequences(r, m):
                     f["sequence"] = num
                 break
     return m
+
+
+def add_recursion(r, m, insts):
+    """genmodels only refers to LATER classes (acyclic class graphs); real schemas have trees and linked lists: give
+    one class a field of its own type (optional or list) and hang copies of each instance of it below itself"""
+    if r.random() >= 0.15:
+        return
+    import copy
+    cands = [c for c in m["classes"] if not c.get("twin") and not any(f["kind"] == "Text" or f.get("mixed") for f in G.all_fields(m, c))]
+    if not cands:
+        return
+    c = r.choice(cands)
+    lst = r.random() < 0.5
+    name = "r%d" % len(c["fields"])
+    f = {"name": name, "kind": "Element", "type": ("class", c["name"]), "list": lst, "optional": not lst}
+    c["fields"].append(f)
+    heirs = {c["name"]}
+    changed = True
+    while changed:
+        changed = False
+        for k in m["classes"]:
+            if k.get("base") in heirs and k["name"] not in heirs:
+                heirs.add(k["name"])
+                changed = True
+    empty = [] if lst else None
+
+    def walk(x):
+        if isinstance(x, list):
+            for y in x:
+                walk(y)
+        elif isinstance(x, dict) and "__cls__" in x:
+            for v in list(x["fields"].values()):
+                walk(v)
+            if x["__cls__"] in heirs and name not in x["fields"]:
+                x["fields"][name] = empty
+                if r.random() < 0.6:
+                    cp = copy.deepcopy(x)
+                    cp2 = copy.deepcopy(x)
+                    x["fields"][name] = ([cp, cp2] if r.random() < 0.5 else [cp]) if lst else cp
+    for inst in insts:
+        walk(inst)
+    # field order of subclasses: dataclass fields of the base come first, the recipes are keyed by name
 
 
 def span_members(fields):
@@ -449,8 +522,7 @@ def classify(m, inst, case, res, vres):
         return "user-prefix-map"
     if explains("no_indent") and (".text" in path or ".tail" in path or "[" in path):
         return "indent-alters-mixed-text"
-    if seq_token_fields(m, inst) and (res.get("exc") in ("TypeError", "ParserError", "ConverterError", "AttributeError")
-                                      or any(f.get("tokens") for _, f in fields_along(m, inst, path))):
+    if seq_token_fields(m, inst) and ("exc" in res or any(f.get("tokens") for _, f in fields_along(m, inst, path))):
         return "sequence-tokens-split"             # C01-F7: next_value yields the tokens one by one
     if "exc" in res:
         return "exception-" + res["exc"]
@@ -524,6 +596,7 @@ def run(ck: Check):
         m = widen_sequences(r, G.gen_model(r, slices=slices))
         name = f"gm_{ck.seed}_{k}"
         insts = [G.gen_instance(r, m, m["root"]) for _ in range(4)]
+        add_recursion(r, m, insts)
         cases = []
         for i in range(len(insts)):
             for _ in range(3):
